@@ -31,6 +31,18 @@ type FaultScenario struct {
 
 const faultTimeout = 300 * time.Millisecond
 
+// within runs f and reports whether it returned in time (it keeps running otherwise).
+func within(d time.Duration, f func()) bool {
+	done := make(chan struct{})
+	go func() { f(); close(done) }()
+	select {
+	case <-done:
+		return true
+	case <-time.After(d):
+		return false
+	}
+}
+
 func (s *session) waitFinished(names []string, d time.Duration) []string {
 	deadline := time.Now().Add(d)
 	for {
@@ -223,10 +235,11 @@ func (s *session) faultRun(r *rig.Rig, w *rec.Writer, sc FaultScenario) error {
 				peer.Close()
 			}
 		}
+		// the peers run the code under test as well: a teardown that does not return is abandoned
 		if s.wedged {
 			go cleanup()
-		} else {
-			cleanup()
+		} else if !within(3*time.Second, cleanup) {
+			s.wedged = true
 		}
 	}()
 	for pos := 0; pos < np; pos++ {
@@ -350,8 +363,8 @@ func RunFaults(in, out string, seed int64, skip int) (int, error) {
 			err = s.faultRun(r, w, fs)
 			if s.wedged {
 				go r.Close()
-			} else {
-				r.Close()
+			} else if !within(5*time.Second, r.Close) {
+				s.wedged = true
 			}
 			if err == nil {
 				break
